@@ -33,6 +33,10 @@ Next ==
      ELSE IF e.e = "stop.ret" THEN
         /\ IF e.ms > 6000 THEN Reject("stop_exceeded_its_grace_period") ELSE UNCHANGED dead
         /\ UNCHANGED <<cfg, stopCalled, stopReturned, flushSeen>>
+     \* directed "rowpanic": a user function panics on some rows; the rows after them must still be processed
+     ELSE IF e.e = "rowpanic" THEN
+        /\ IF e.got < e.want THEN Reject("rows_after_a_panicking_row_not_processed") ELSE UNCHANGED dead
+        /\ UNCHANGED <<cfg, stopCalled, stopReturned, flushSeen>>
      ELSE IF e.e = "panic" THEN Reject("api_call_panicked") /\ UNCHANGED <<cfg, stopCalled, stopReturned, flushSeen>>
      ELSE IF e.e = "deadlock" THEN Reject("deadlock_or_call_never_returned") /\ UNCHANGED <<cfg, stopCalled, stopReturned, flushSeen>>
      ELSE IF e.e = "settled" THEN
